@@ -288,10 +288,11 @@ def _residual_case(scn: dict) -> list[dict]:
                 out.append({**base, "status": "ok", "orient": ("both" if not differ else "dp" if okdp else "pd")})
             else:
                 out.append({**base, "status": "bad", "expected": {"dp": vdp, "pd": vpd}, "observed": obs, "tolerance": tol})
-    after = content_of(model)
+    after = content_of(model, invalidate=True)
     if before != after:
         out.append({"loss": "*", "scaled": False, "status": "bad", "expected": before, "observed": after,
-                    "what": "caller's model changed by an evaluation through the fit routine (as_deepcopy default)"})
+                    "what": "caller's model (stored content, or what it computes with after a no-op edit) changed by an "
+                            "evaluation through the fit routine (as_deepcopy default)"})
     return out
 
 
@@ -303,11 +304,19 @@ def classify_residual(scn: dict, r: dict) -> str | None:
 
 def slim(scn: dict, loss: str | None = None, scl: str | None = None) -> dict:
     out = {"kind": "residual", "sc": scn["sc"], "kin": scn["kin"], "As": scn["As"], "data": scn["data"],
-           "pred": scn["pred"], "generated": scn["generated"]}
+           "pred": scn["pred"], "generated": scn["generated"], "minit": scn["minit"], "y0": scn["y0"]}
     if loss and loss in scn["exp"]:
         out["exp"] = {loss: {scl: scn["exp"][loss][scl]}}
         out["loss"], out["scl"] = loss, scl
     return out
+
+
+def writes_init(scn: dict) -> str:
+    """Does evaluating this scenario write an initial value (fitted variable and/or y0)?"""
+    srcs = scn["sc"]["srcs"]
+    fitted = any(x in ("p0", "p0y0") for x in srcs)
+    y0 = any(x in ("y0", "p0y0") for x in srcs)
+    return "fitted+y0" if fitted and y0 else "fitted" if fitted else "y0" if y0 else "none"
 
 
 def nontrivial(scn: dict) -> bool:
@@ -324,7 +333,7 @@ def scenarios(ctx: Ctx, rep: Report) -> list[dict]:
     if len(scns) < 300:
         raise MachineryError(f"only {len(scns)} residual scenarios emitted")
     shapes = {s["sc"]["shape"] for s in scns}
-    if shapes != {"ss", "tc", "ptc"}:
+    if shapes != {"ss", "ssc", "tc", "ptc"}:
         raise MachineryError(f"scenario family lacks a shape: {shapes}")
     return scns
 
@@ -336,7 +345,7 @@ def residuals(ctx: Ctx, rep: Report, scns: list[dict]) -> None:
     if len(pick) > cap:
         by = {}
         for s in pick:
-            by.setdefault((s["sc"]["shape"], s["sc"]["n"]), []).append(s)
+            by.setdefault((s["sc"]["shape"], s["sc"]["n"], writes_init(s)), []).append(s)
         pick = []
         share = cap // len(by)
         for k in sorted(by):
@@ -373,15 +382,21 @@ def residuals(ctx: Ctx, rep: Report, scns: list[dict]) -> None:
 # ======================================================================================================
 def fit_cases(ctx: Ctx, scns: list[dict]) -> list[dict]:
     rnd = random.Random(ctx.seed + 2)
-    usable = [s for s in scns if not (s["sc"]["src"] == "p0" and any(fr(x) == 0 for x in s["sc"]["x0c"]))]
-    by = {}
+    # (a fitted initial value of exactly 0 sits on scipy's default lower bound 1e-6: left to the residual stage)
+    usable = [s for s in scns
+              if not any(src in ("p0", "p0y0") and fr(x) == 0 for src, x in zip(s["sc"]["srcs"], s["sc"]["x0c"]))]
+    by: dict = {}
     for s in usable:
-        by.setdefault(s["sc"]["shape"], []).append(s)
-    per_shape = 24 if ctx.quick else 200
+        by.setdefault(s["sc"]["shape"], {}).setdefault(writes_init(s), []).append(s)
+    per_shape = 20 if ctx.quick else 160
     cases = []
     for shape in sorted(by):
-        pool = by[shape]
-        chosen = pool if len(pool) <= per_shape else rnd.sample(pool, per_shape)
+        groups = by[shape]
+        chosen = []
+        share = max(1, per_shape // len(groups))       # fits that write initial values (fitted / y0) get an equal share
+        for g in sorted(groups):
+            pool = groups[g]
+            chosen += pool if len(pool) <= share else rnd.sample(pool, share)
         for j, s in enumerate(chosen):
             losses_ok = [nm for nm in LAWFUL if term_value(s["exp"][nm]["plain"]["dp"]) is not None]
             loss = losses_ok[j % len(losses_ok)]
@@ -391,7 +406,7 @@ def fit_cases(ctx: Ctx, scns: list[dict]) -> list[dict]:
             cases.append({"scn": slim(s), "loss": loss, "scaled": bool(scaled), "method": method,
                           "copy": j % 7 != 3, "id": len(cases)})
     # the unlawful losses may still be used for fitting: what is reported must be honest all the same
-    extra = [s for s in by.get("ss", []) if s["generated"]][:4 if ctx.quick else 24]
+    extra = [s for s in by.get("ss", {}).get("none", []) if s["generated"]][:4 if ctx.quick else 24]
     for j, s in enumerate(extra):
         cases.append({"scn": slim(s), "loss": ["mean", "cosine_similarity"][j % 2], "scaled": False, "method": "L-BFGS-B",
                       "copy": True, "id": len(cases), "bounded": True})
@@ -430,7 +445,7 @@ def run_fit(case: dict) -> dict:
             fresh, kind2, kw2, _, _ = build(scn)
             l1 = evaluate_at(fresh, kind2, kw2, best, case["loss"], case["scaled"])
             ev.append(event("reeval", names, best, l1))
-        ev.append({"k": "exit", "content": content_of(model)})
+        ev.append({"k": "exit", "content": content_of(model, invalidate=True)})
     return {"id": case["id"], "copy": bool(case["copy"]), "generated": bool(scn["generated"]), "ev": ev}
 
 
